@@ -28,7 +28,7 @@ package replayfilter
 //@   ensures [C11:starts_empty] err == nil ==> wf(filter) && len(filter.filter) == 0 && filter.ttl == ttl
 
 //@ func (*ReplayFilter).reset(f) ()
-//@   serves C11
+//@   serves C11 C04
 //@   requires f != nil
 //@   modifies f.filter, f.fifo
 //@   ensures [C11:reset_discards_everything] wf(f) && len(f.filter) == 0 && fresh(f.filter) && fresh(f.fifo)
@@ -40,7 +40,7 @@ package replayfilter
 // (now - firstSeen < ttl); when the filter is full one entry is evicted regardless; a clock that is
 // behind the oldest entry discards everything.
 //@ func (*ReplayFilter).compactFilter(f, now) ()
-//@   serves C11
+//@   serves C11 C04
 //@   requires wf(f)
 //@   modifies f.filter, f.fifo, alloftype(f.filter), alloftype("*list.List"), alloftype("*list.Element"), alloftype("*replayfilter.entry")
 //@   ghost H0 := f.fifo.lhead
